@@ -435,6 +435,10 @@ impl<T: ObjectStore, M: SidecarMeta> SidecarStore<T, M> {
         };
         let mut replaced: Option<Path> = None;
         let replaced_out = &mut replaced;
+        // Set when the commit-point put itself failed with an outcome that is
+        // not known to be "nothing written" (see below).
+        let mut commit_failed: Option<Error> = None;
+        let commit_failed_out = &mut commit_failed;
         let mut f = Some(f);
         let rt = self
             .meta_cache
@@ -484,7 +488,8 @@ impl<T: ObjectStore, M: SidecarMeta> SidecarStore<T, M> {
                     source: format!("Failed to serialize Metadata for path {location}: {err:?}")
                         .into(),
                 })?;
-                self.store
+                match self
+                    .store
                     .put_opts(
                         &meta_path,
                         data.into(),
@@ -494,16 +499,33 @@ impl<T: ObjectStore, M: SidecarMeta> SidecarStore<T, M> {
                         },
                     )
                     .await
-                    .map_err(|err| match err {
-                        Error::AlreadyExists { source, .. } => Error::AlreadyExists {
+                {
+                    Ok(_) => {}
+                    // A refused conditional create is a known outcome:
+                    // nothing was written and the cache stays as it is.
+                    Err(Error::AlreadyExists { source, .. }) => {
+                        return Err(Error::AlreadyExists {
                             path: location.to_string(),
                             source,
-                        },
-                        err => err,
-                    })?;
+                        });
+                    }
+                    // Any other failure leaves the outcome of the pointer
+                    // switch unknown: the new document may have been
+                    // committed. Drop the cached document so the next access
+                    // re-resolves the commit point instead of serving (and
+                    // handing out the CAS token of) a version that may have
+                    // been replaced.
+                    Err(err) => {
+                        *commit_failed_out = Some(err);
+                        return Ok(Op::Remove);
+                    }
+                }
                 Ok::<_, Error>(Op::Put(Arc::new(val)))
             })
             .await?;
+        if let Some(err) = commit_failed {
+            return Err(err);
+        }
         let rt = rt.unwrap().value().clone();
 
         // The pointer switch committed; the replaced payload is garbage now.
@@ -533,6 +555,9 @@ impl<T: ObjectStore, M: SidecarMeta> SidecarStore<T, M> {
     pub(crate) async fn delete_object(&self, location: &Path) -> Result<()> {
         let mut payload: Option<Path> = None;
         let payload_out = &mut payload;
+        // Set when deleting the commit point failed with an unknown outcome.
+        let mut commit_failed: Option<Error> = None;
+        let commit_failed_out = &mut commit_failed;
         self.meta_cache
             .entry(location.clone())
             .and_try_compute_with(|_entry| async move {
@@ -564,11 +589,16 @@ impl<T: ObjectStore, M: SidecarMeta> SidecarStore<T, M> {
 
                 match self.store.delete(&self.meta_path(location)).await {
                     Ok(()) | Err(Error::NotFound { .. }) => {}
-                    Err(err) => return Err(err),
+                    // The commit point may be gone: drop the cached document
+                    // (see `update_meta_with`) and report the failure.
+                    Err(err) => *commit_failed_out = Some(err),
                 }
                 Ok::<_, Error>(Op::Remove)
             })
             .await?;
+        if let Some(err) = commit_failed {
+            return Err(err);
+        }
 
         if let Some(path) = payload {
             self.best_effort_delete(&path).await;
